@@ -761,7 +761,34 @@ func mentionsLen(v ssa.Value, seen map[ssa.Value]bool) bool {
 }
 
 func nonZeroGuard(g *guardEngine, f *ssa.Function, div *ssa.BinOp) bool {
-	d := div.Y
+	if nonZeroGuardAt(g, f, div.Y, div) {
+		return true
+	}
+	// the divisor is a parameter of a helper: tested by every caller before the call
+	if par, ok := div.Y.(*ssa.Parameter); ok && par.Parent() == f {
+		idx := -1
+		for i, q := range f.Params {
+			if q == par {
+				idx = i
+			}
+		}
+		calls, asValue := directCallSites(g.p, f)
+		if idx < 0 || asValue || len(calls) == 0 {
+			return false
+		}
+		for _, cs := range calls {
+			ci, ok := cs.(ssa.Instruction)
+			if !ok || idx >= len(cs.Common().Args) || !nonZeroGuardAt(g, ci.Parent(), cs.Common().Args[idx], ci) {
+				return false
+			}
+		}
+		return true
+	}
+	return false
+}
+
+// nonZeroGuardAt: a comparison of d dominates the instruction at in f.
+func nonZeroGuardAt(g *guardEngine, f *ssa.Function, d ssa.Value, div ssa.Instruction) bool {
 	for _, b := range f.Blocks {
 		for _, ins := range b.Instrs {
 			cmp, ok := ins.(*ssa.BinOp)
